@@ -29,8 +29,8 @@ PROBES = {
 def gen_history(rng, n):
     h = []
     for _ in range(n):
-        k = rng.choices(["construct", "algebra", "member", "detect", "infer", "cast", "frame", "create_type", "sampled", "list", "long"],
-                        [2, 2, 3, 3, 4, 3, 2, 1, 1, 1, 1])[0]
+        k = rng.choices(["construct", "algebra", "member", "detect", "infer", "cast", "frame", "create_type", "sampled", "list", "long", "edit"],
+                        [2, 2, 3, 3, 4, 3, 2, 1, 1, 1, 1, 2])[0]
         ts = rng.choice(["standard", "complete", "geometry"])
         op = {"op": k, "ts": ts}
         if k == "algebra":
@@ -41,6 +41,8 @@ def gen_history(rng, n):
             op["recipe"] = G.gen_column(rng)
         if k in ("detect", "infer", "cast"):
             op["recipe"] = G.gen_column(rng)
+        if k == "edit":
+            op["kind"] = rng.choice(["list", "numpy", "series", "frame"])
         if k == "long":
             op["pos"] = sorted(rng.sample(range(1500), rng.choice([1, 2, 30])))
         if k == "frame":
@@ -95,7 +97,20 @@ def run(tier, seed):
                     continue     # the explicit sampling helper draws from numpy's global generator by design
                 fails.append({"property": "C10", "signature": "global-state:" + ch.split(":")[0],
                               "what": "API call %s changed process-global state: %s" % (op["op"], ch), "op": op, "hashseed": hs})
+            if op["op"] == "edit" and ent.get("err"):
+                fails.append({"property": "C10", "signature": "stale-after-edit",
+                              "what": "after an in-place edit of the same container the same typeset answered from memory: %s" % ent["err"],
+                              "op": op, "hashseed": hs})
             nontriv.add(canon(op))
+        # a used typeset answers as a fresh one of the same kind does in the reference process
+        ref_used = {}
+        for key, ans in r.get("probe_used", {}).items():
+            tsname, name = key.split(":", 1)
+            if tsname == "complete" and name in ref["probe"] and "path" in ans and "path" in ref["probe"][name]:
+                if ans["path"] != ref["probe"][name]["path"] or ans["detect"] != ref["probe"][name]["detect"]:
+                    fails.append({"property": "C10", "signature": "used-typeset-differs:" + name,
+                                  "what": "a CompleteSet that served earlier calls answers %s, a fresh one %s" % (ans, ref["probe"][name]["path"]),
+                                  "history": spec["history"], "hashseed": hs})
         for name, ans in r["probe"].items():
             if name.startswith("long_") and len(set(map(canon, ans))) > 1:
                 fails.append({"property": "C10", "signature": "repeated-call-differs:" + name,
